@@ -1,2 +1,89 @@
+(* C38 — Attribute values agree with git check-attr: the theorems.
+   Model.v = gitoxide (gix-attributes parse/search/outcome, gix-worktree stack), Spec.v = git 2.39.5 attr.c
+   (fill, fill_one, macroexpand_one, determine_macros, attr_name_valid, parse_attr).
+   What is proved: for every set of attribute files, every path, directory flag and case mode, the values gitoxide
+   assigns equal what git's resolution algorithm assigns over git's attribute stack, given the same parsed lines and
+   the same pattern matcher (the matcher is arbitrary in [one_pattern_list_is_gits]; wildmatch itself is C36).
+   Not proved here (tested against git check-attr): that the line tokenizer, unquoting, glob-pattern flags and
+   path_matches/match_basename/match_pathname agree with git. *)
 From GixV.Base Require Import Bytes BytesFacts.
 From GixV.C38 Require Import Glob Model Spec Proofs.
+
+(* attribute names: check_attr accepts exactly what attr_name_valid accepts, for every byte string *)
+Theorem attr_name_valid_is_gits : forall n, attr_valid n = g_attr_name_valid n.
+Proof. exact attr_valid_is_gits. Qed.
+
+(* one attribute token: Iter::parse_attr computes the name and state (set, unset, unspecified, value) that
+   attr.c parse_attr computes, and rejects the same tokens, for every byte string *)
+Theorem attr_token_is_gits : forall tok, parse_attr tok = g_parse_attr tok.
+Proof. exact parse_attr_is_gits. Qed.
+
+(* MetadataCollection: overwriting macro definitions in reading order leaves the last definition *)
+Theorem macro_table_last_definition_wins : forall defs M n,
+  lookup (set_all M defs) n =
+  match find (keyb n) (rev defs) with Some e => snd e | None => lookup M n end.
+Proof. exact lookup_set_all. Qed.
+
+(* ... which is what determine_macros finds walking git's stack from the top (info, directories, root, global,
+   builtin), every file from its last line *)
+Theorem macro_table_is_determine_macros : forall s, dirs_no_macros s -> forall n,
+  lookup (macros_of s) n =
+  match g_macro (map l_maps (search_order s)) n with Some a => a | None => [] end.
+Proof. exact Proofs.macro_table_is_determine_macros. Qed.
+
+(* Outcome::fill_attributes (explicit stack, filter at push, test at pop) never runs out of fuel and computes
+   exactly fill_one/macroexpand_one (recursion), for every macro table, every assignment list and every state of
+   the slots; git's recursion terminates within one level per macro definition *)
+Theorem fill_attributes_is_fill_one : forall M gm (defs : list (bytes * list assignment)),
+  (forall n, lookup M n = match gm n with Some a => a | None => [] end) ->
+  (forall n a, gm n = Some a -> exists e, In e defs /\ bytes_eqb (fst e) n = true) ->
+  forall attrs o,
+  exists o', fill_attributes M attrs o = Some o' /\
+             g_fill_one (S (length defs)) gm (rev attrs) o = Some o'.
+Proof. exact fill_is_fill_one. Qed.
+
+(* the stack machine terminates with the fuel the model gives it, whatever the table (also cyclic macros) *)
+Theorem fill_attributes_terminates : forall M attrs o, fill_attributes M attrs o <> None.
+Proof. exact fill_terminates. Qed.
+
+(* one pattern list, for EVERY matcher: skipping lines whose attributes are all decided
+   (has_unspecified_attributes) and the per-attribute first match = git's loop over stack->attrs[] *)
+Theorem one_pattern_list_is_gits : forall M gm (defs : list (bytes * list assignment)),
+  (forall n, lookup M n = match gm n with Some a => a | None => [] end) ->
+  (forall n a, gm n = Some a -> exists e, In e defs /\ bytes_eqb (fst e) n = true) ->
+  forall matchf rmaps o,
+  exists o', search_maps matchf M rmaps o = Some o' /\
+             g_fill_maps (S (length defs)) matchf gm rmaps o = Some o'.
+Proof. exact search_maps_is_fill. Qed.
+
+(* the property, modulo the shared parser and matcher: for all files, paths and modes the slots filled by
+   gix_worktree's stack (with the collection's macro table) are the values git's fill() computes over its stack
+   with determine_macros *)
+Theorem attrs_is_git_partial : forall global info files cf path isdir,
+  exists o, matching_attributes global info files cf path isdir = Some o /\
+            git_attrs global info files cf path isdir = Some o.
+Proof. exact matching_attributes_is_git. Qed.
+
+(* ---- non-vacuity ------------------------------------------------------------------------------------ *)
+(* `* binary` expands the builtin macro; `-binary` and `binary=x` do not (git: value must be ATTR__TRUE) *)
+Example binary_set_expands :
+  matching_attributes [] [] [([], bs "* binary")] false (bs "x") false
+  = Some [(bs "diff", SUnset); (bs "merge", SUnset); (bs "text", SUnset); (bs "binary", SSet)].
+Proof. vm_compute. reflexivity. Qed.
+Example binary_unset_does_not_expand :
+  matching_attributes [] [] [([], bs "* -binary")] false (bs "x") false = Some [(bs "binary", SUnset)].
+Proof. vm_compute. reflexivity. Qed.
+(* info/attributes wins over the innermost directory; a redefined macro uses its last definition; cycles end *)
+Example info_wins_and_cycles_end :
+  matching_attributes (bs "[attr]m1 m2 a") (bs "a/* b=info")
+    [([], bs "[attr]m2 m1 c" ++ [x0a] ++ bs "* m1"); (bs "a", bs "* b=dir")] false (bs "a/x") false
+  = Some [(bs "c", SSet); (bs "m2", SSet); (bs "a", SSet); (bs "m1", SSet); (bs "b", SValue (bs "info"))].
+Proof. vm_compute. reflexivity. Qed.
+Example hypotheses_satisfiable :
+  let s := make_setup (bs "[attr]m1 a") [] [([], bs "[attr]m1 b")] (bs "x") in
+  dirs_no_macros s /\ lookup (macros_of s) (bs "m1") = [(bs "b", SSet)].
+Proof. split; [apply make_setup_no_macros | vm_compute; reflexivity]. Qed.
+Example tokens_examples :
+  parse_attr (bs "-a=b") = Some (bs "a", SUnset) /\ parse_attr (bs "a=") = Some (bs "a", SValue []) /\
+  parse_attr (bs "!") = None /\ parse_attr (bs "=v") = None /\ parse_attr (bs "a=b=c") = Some (bs "a", SValue (bs "b=c")).
+Proof. vm_compute. repeat split; reflexivity. Qed.
